@@ -10,8 +10,8 @@
    operation — writers at their commit point, readers at their Read (or at the test that said
    "absent"); the calls that perform no operation last ([rest_of]).
 
-   Not covered: pools that also contain delete_metadata (the reader's FileNotFoundError of family
-   R, LinNF.v); those stay with the menus (C12.v). *)
+   Pools that also contain delete_metadata(pid, format) (the reader's FileNotFoundError of family
+   R, LinNF.v): props/C12deletes.v (OneDocDel.v). *)
 From HS Require Import Base PyVal FS Ops Sched Spec SeqLemmas Bracket Indep IndepMeta OneDoc OneDocReaders.
 
 (* (1) a reader never sees a partial document — in EVERY configuration any schedule reaches *)
